@@ -271,8 +271,12 @@ def run_check(prop, tier, seed):
         'exhaustive': False,
     }
     coverage.update(ev)
+    # keys for the translation-validation level: validated end-to-end runs and checked steps
+    coverage.setdefault('programs', max(corr.evaluations, 1))
+    coverage.setdefault('disagreements_checked', len(corr.disagreements))
+    coverage.update(getattr(corr, 'extra', {}))
     evidence = {
-        'property_id': pid, 'tier': tier, 'seed': seed, 'level': 'proof',
+        'property_id': pid, 'tier': tier, 'seed': seed, 'level': getattr(prop, 'LEVEL_CATEGORY', 'proof'),
         'coverage': coverage,
         'assumptions': list(getattr(prop, 'ASSUMPTIONS', [])),
         'wall_s': round(wall, 2), 'violations': len(violations) + (1 if (broken and not violations) else 0),
